@@ -378,6 +378,14 @@ def run(sc):
         if not pre_failed:
             evals += 1
             judge(sc, env, kind, fault, state, outcome, res, hits, ref)
+        if kind == "register" and not pre_failed and state["delivered"] is not None and fault["mut"]["type"] == "encap":
+            # a refused registration must not leave anything behind: opening again registers a session
+            session.begin_op(env, "o1b")
+            o1b, r1b = harness.call(sim, drv.open)
+            if o1b == "ok" and r1b and not env.entry.sessions:
+                hits.hit("C13", "reply.classify", f"register: after a RegisterSession reply with encapsulation status "
+                         f"0x{fault['mut']['status']:x} a second open() returned True although no session is registered at "
+                         f"the target", kind=kind, reply="encap", outcome="truthy-on-error", status="stale-session")
         # afterwards: whatever happened, the driver must stay usable in the library's own terms
         session.begin_op(env, "o2")
         o2, r2 = harness.call(sim, drv.close)
@@ -598,9 +606,11 @@ def directed(tier, prop="C13"):
     for kind in KINDS:
         if kind in ("register", "list_identity"):
             for s in (1, 2, 3, 0x64, 0x65, 0x69, 0xFFFF, 0x10000, 0x80000000, 0xFFFF0000):
-                sc = base_scenario(kind, seed)
-                sc["fault"] = {"nth": 0, "mut": {"type": "encap", "status": s}}
-                out.append(sc)
+                for dcls in (("LogixDriver", "CIPDriver") if kind == "register" else ("LogixDriver",)):
+                    sc = base_scenario(kind, seed)
+                    sc["driver"]["cls"] = dcls
+                    sc["fault"] = {"nth": 0, "mut": {"type": "encap", "status": s}}
+                    out.append(sc)
             continue
         multi = kind in ("multiread", "multiwrite")
         for nth in range(n_replies(kind)):
@@ -713,6 +723,8 @@ def gen(seed, tier, prop="C13"):
     kind = r.choice(KINDS)
     fw = r.choice((17, 20, 32))
     sc = base_scenario(kind, seed, fw)
+    if kind == "register" and r.random() < 0.5:
+        sc["driver"]["cls"] = "CIPDriver"
     sc["net"] = {"chunk": r.choice(("whole", "mixed")), "send": "all", "latency": "small"}
     sc["driver"]["log"] = "verbose" if r.random() < 0.1 else "off"
     if kind.startswith("generic") and r.random() < 0.5:
